@@ -1136,7 +1136,7 @@ impl<'v, 'a, 'e: 'a> Evaluator<'v, 'a, 'e> {
             "check",
             self.get_total_tick_count() as i64,
             self.max_tick_count.map_or(-1, |x| x as i64),
-            (self.is_cancelled)() as i64,
+            0,
         );
         if (self.is_cancelled)() {
             return Err(crate::Error::new_other(EvaluatorError::Cancelled));
